@@ -12,7 +12,7 @@ import random
 
 import numpy as np
 
-from .. import core, parsers
+from .. import core, motlutil, parsers
 from ..motlutil import FIELDS
 
 HOLE = 1000000          # wire code of the missing value (EmMotlIO.tla HoleCode)
@@ -115,6 +115,12 @@ def build_df(tbl, vals, variant):
     df = pd.DataFrame(np.array([[row[p] for p in canon_pos] for row in rows], dtype=float).reshape(len(rows), 20),
                       columns=FIELDS)
     return df[order]
+
+
+def build_table(tbl, vals, variant):
+    """build_df + the row labels a sorted / sampled / filtered table carries (half of the cases: labels that are not
+    0..N-1 in order).  The particle order is the table's row order, whatever the labels."""
+    return motlutil.vary_index(build_df(tbl, vals, variant), variant // 3)
 
 
 def order_class(order):
@@ -228,7 +234,7 @@ def run_transition(ctx, tr, variant, vseed):
     if op in ("write_motl", "write_emmotl"):
         tbl = tr["pre"]["tbl"]
         sig = {"op": op, "order": order_class(tbl["order"])}
-        df = build_df(tbl, vals, variant)
+        df = build_table(tbl, vals, variant)
         _, err = core.call_guarded(do_write, op, df, path, variant)
         if err is not None:
             ctx.fail("call_raises", "%s: %s" % (op, err), case, sig)
@@ -261,17 +267,20 @@ def run_behaviour(ctx, hist, variant, vseed):
     if os.path.exists(path):
         os.remove(path)
     cur = hist[0]["post"]["tbl"]
-    df0 = build_df(cur, vals, variant)
+    df0 = build_table(cur, vals, variant)
     motl, err = core.call_guarded(cryomotl.Motl, df0)
     if err is not None:
         ctx.fail("call_raises", "Motl(df): %s" % err, case, {"op": "build", "order": order_class(cur["order"])})
         ctx.ran(case)
         return
     loaded = None
+    held = []            # (step, table object returned by an earlier load, copy taken when it was returned)
     for i, st in enumerate(hist[1:], start=1):
         op = st["op"]["name"]
         post = st["post"]
         sig = {"op": op, "order": order_class(cur["order"])}
+        if i > 1 and not recheck_held(ctx, held, i, case):
+            break
         if op == "swap":
             a, b = st["op"]["i"] - 1, st["op"]["j"] - 1
             cols = list(motl.df.columns)
@@ -304,6 +313,7 @@ def run_behaviour(ctx, hist, variant, vseed):
                 break
             if not check_table(ctx, loaded.df, post["mem"], vals, case, sig, "C01_RoundTrip"):
                 break
+            held.append((i, loaded, loaded.df.copy(deep=True)))
         elif op == "adopt":
             motl = loaded
             cur = post["tbl"]
@@ -311,7 +321,22 @@ def run_behaviour(ctx, hist, variant, vseed):
                 break
         else:
             raise core.MachineryError("unknown op %r" % (st["op"],))
+    else:
+        recheck_held(ctx, held, len(hist), case)
     ctx.ran(case)
+
+
+def recheck_held(ctx, held, now, case):
+    """A list that an earlier Motl.load returned must still be what it was after later calls."""
+    for step_no, obj, snap in held:
+        df = obj.df
+        same = list(df.columns) == list(snap.columns) and df.shape == snap.shape and \
+            np.array_equal(df.to_numpy(dtype=float), snap.to_numpy(dtype=float), equal_nan=True)
+        if not same:
+            ctx.fail("C01_RoundTrip", "the list loaded at step %d changed after later calls (inspected before step %d)" % (
+                step_no, now), case, {"op": "load", "reinspected": True})
+            return False
+    return True
 
 
 def replay(ctx, case):
